@@ -19,6 +19,10 @@ class ReturnSig(Exception):
         self.value = value
 
 
+class SpecUndefined(Exception):
+    """a contract sub-expression dereferences None on this path"""
+
+
 class BreakSig(Exception):
     pass
 
@@ -121,6 +125,7 @@ class Interp:
         self.reg = reg
         self.depth = 0
         self.spec_mode = 0
+        self.quant_depth = 0
 
     # ------------------------------------------------------------------ helpers
     def fresh(self, t, name):
@@ -921,6 +926,8 @@ class Interp:
             raise OutOfSubset(f"class attribute {o.name}.{attr}")
         if isinstance(o, VFunc) and attr == "__name__":
             return VStr(o.name or "f")
+        if o is NONE and self.spec_mode:
+            raise SpecUndefined(attr)
         return VBoundExt(o, attr)
 
     def base_classdef(self, cd):
@@ -1027,8 +1034,15 @@ class Interp:
 
     def e_BoolOp(self, e, fr):
         if self.spec_mode:
-            # contract expressions are pure: no short-circuit forking (needed under quantifiers)
-            ts = [self.truth(self.eval(x, fr)) for x in e.values]
+            # contract expressions are pure: no short-circuit forking (needed under quantifiers).
+            # An operand that is undefined where an earlier operand guards it (x is not None and
+            # x.f == ...) becomes an unconstrained Bool: it cannot help a proof.
+            ts = []
+            for x in e.values:
+                try:
+                    ts.append(self.truth(self.eval(x, fr)))
+                except SpecUndefined:
+                    ts.append(z3.Bool(self.ctx.namer("undef")))
             return VBool(z3.And(ts) if isinstance(e.op, ast.And) else z3.Or(ts))
         last = None
         for i, x in enumerate(e.values):
@@ -1621,7 +1635,12 @@ class Interp:
             a = z3.simplify(a)
             if z3.is_false(a):
                 return VBool(True)
-            # evaluate consequent without forking on the antecedent
+            if self.quant_depth == 0 and not z3.is_true(a):
+                # outside quantifiers: case split, so the consequent is only evaluated where the
+                # antecedent holds (it may dereference what the antecedent guards)
+                if not self.ctx.branch(a, "implies"):
+                    return VBool(True)
+                return VBool(self.truth(self.eval(e.args[1], fr)))
             b = self.truth(self.eval(e.args[1], fr))
             return VBool(z3.Implies(a, b))
         if src in ("forall", "exists"):
@@ -1638,7 +1657,11 @@ class Interp:
                 v, _ = fresh(ty, "q_" + n, self.ctx.namer)
                 sub.locals[n] = v
                 qs.append(v.z)
-            body = self.truth(self.eval(lam.body, sub))
+            self.quant_depth += 1
+            try:
+                body = self.truth(self.eval(lam.body, sub))
+            finally:
+                self.quant_depth -= 1
             return VBool(z3.ForAll(qs, body) if src == "forall" else z3.Exists(qs, body))
         if src == "ite":
             c = self.truth(self.eval(e.args[0], fr))
